@@ -24,6 +24,10 @@
 //           the tree: it is never rebalanced), n[4] = stack size in KiB of the thread on which the whole case runs (tree built,
 //           queried, partly erased and DESTROYED there), n[5] = salt (which entries are probed / erased; bit 0: destroy the tree
 //           full, without the erase phase)
+//   mode 5: insertions that may fail (subcheck kdx): n[1] = dimensions, n[2] = grid side, n[3] = salt, n[4..] = packed operations as in mode 0
+//           on a tree whose value type has a copy constructor that throws on schedule: the value field of INSERT / EMPLACE is
+//           v + 10 * k, the digit of INSERT_DUP v + 3 * k, k > 0: the k-th copy construction of a value during that insertion throws
+//   double coordinates (modes 2): n[5] / 8 % 4 = how the zero coordinate is spelled when stored / when queried (DoubleMap::zero_mode)
 //
 // Iterators: Iterator declares std::forward_iterator_tag, so a copy is an independent position, `it++` returns the old
 // position and ++(it++) == it (multipass guarantee). The iteration part of the battery therefore walks to a position
